@@ -11,10 +11,10 @@ git -C /repo worktree add -q --detach $WT HEAD || exit 3
 cleanup() { git -C /repo worktree remove --force $WT 2>/dev/null; rm -rf $WT; }
 trap cleanup EXIT
 cp "$OUT/$DEMO" "$WT/$DEST"
-( cd $WT && go test $PKG -run "$RUN" -count=1 > /tmp/seed-without.log 2>&1 ); W=$?
+( cd $WT && go test ${SEED_TEST_FLAGS:-} $PKG -run "$RUN" -count=1 > /tmp/seed-without.log 2>&1 ); W=$?
 ( cd $WT && git apply "$OUT/patch.diff" ) || { echo "patch does not apply"; exit 3; }
 ( cd $WT && go build ./... ) || { echo "does not build"; exit 3; }
-( cd $WT && go test $PKG -run "$RUN" -count=1 > /tmp/seed-with.log 2>&1 ); X=$?
+( cd $WT && go test ${SEED_TEST_FLAGS:-} $PKG -run "$RUN" -count=1 > /tmp/seed-with.log 2>&1 ); X=$?
 rm "$WT/$DEST"
 ( cd $WT && go test -count=1 ./... > /tmp/seed-suite.log 2>&1 ); S=$?
 echo "demo without change: rc=$W (want 0); with change: rc=$X (want !=0); suite with change: rc=$S (want 0)"
